@@ -1,5 +1,8 @@
+import HqModel.Props.WorkerSide
 import HqModel.Lemmas.JobSteps
+import HqModel.Lemmas.JobHistory
 import HqModel.Lemmas.CoreSteps
+import HqModel.Lemmas.CoreInvIds
 /-!
 # C01 — exactly one terminal outcome, reported once, in order
 
@@ -46,5 +49,57 @@ theorem c01_core_ignores_unknown (s : Core.State) (w : Nat) (id : Core.TaskId) (
 /-- non-vacuity: a job with a finished task refuses a second finish -/
 example : (({ id := 1, tasks := [(0, .finished)], isOpen := false, maxFails := none } : Job.Job).setFinished 0).toOption
     = none := by decide
+
+/-- **The core forgets the task together with its outcome, in every reachable state**: task ids are unique in
+every state the core reaches from the empty state by ANY sequence of operations (`Core.run_nodup`), hence after
+`Core::remove_task` the id is unknown — no uniqueness hypothesis. -/
+theorem c01_core_forgets_reachable (ops : List Core.Op) (s : Core.State) (out : Core.Out)
+    (hrun : Core.run {} ops = .ok (s, out)) (s' : Core.State) (id : Core.TaskId) (st : Core.TS)
+    (h : s.removeTask id = .ok (s', st)) : s'.task? id = none :=
+  Core.removeTask_unknown (Core.run_nodup hrun) h
+
+/-- non-vacuity of `c01_core_forgets_reachable`: a run that submits two tasks, after which `remove_task` succeeds -/
+example : ((Core.run {} [.newRq [{}], .newTasks [⟨(1, 0), 0, 0, .max 5, [], 0, 0⟩, ⟨(1, 1), 0, 0, .max 5, [(1, 0)], 0, 0⟩]]).toOption.map
+    fun r => (r.1.tasks.map (·.id), (r.1.removeTask (1, 1)).toOption.map (·.1.tasks.map (·.id)))) =
+    some ([(1, 0), (1, 1)], some [(1, 0)]) := by decide
+
+/-- **History form for the job layer: every task gets at most one terminal report, exactly one iff its state
+is terminal, and a finish is reported only after a start.** For ALL operation sequences `ops` (client requests
+and tako callbacks in any order, any length) and every run from the empty server state that does not stop with
+a panic, with `evs` = all events emitted during the run (`Job.termCount t evs` counts the terminal reports of
+`t`: `finished t`, `failed t`, and the occurrences of `t` in the id lists of `canceled` / `aborted` events):
+
+* (a) no task id — also of jobs that were forgotten meanwhile — is reported more than once;
+* (b) for every job still stored and every task of it: exactly one report if the task's state is terminal
+  (finished / failed / canceled / aborted), none if it is waiting or running;
+* (c) every `finished t` event is preceded in `evs` by a `started t …` event. -/
+theorem c01_outcome_once (ops : List Job.Op) (s : Job.State) (evs : List Job.Ev)
+    (h : Job.run {} ops = .ok (s, evs)) :
+    (∀ t : Job.TaskId, Job.termCount t evs ≤ 1) ∧
+    (∀ job ∈ s.jobs, ∀ p ∈ job.tasks,
+      Job.termCount (job.id, p.1) evs = if p.2.terminal then 1 else 0) ∧
+    (∀ t pre post, evs = pre ++ [Job.Ev.finished t] ++ post →
+      ∃ i ws rv, Job.Ev.started t i ws rv ∈ pre) := by
+  have hist := Job.run_hist h
+  have wf := Job.run_wf ops Job.init_wf h
+  refine ⟨hist.once, ?_, ?_⟩
+  · intro job hj p hp
+    have hf := Job.findJob_of_mem wf.ids hj
+    have hl := Job.lookup_of_mem (wf.jobs job hj).nodup (t := p.1) (a := p.2) hp
+    rw [hist.cnt _ _ hf p.1, hl]
+    rfl
+  · intro t pre post he
+    exact hist.order t pre post (by simpa using he)
+
+/-- non-vacuity of `c01_outcome_once`: open job 1, submit tasks 0,1,2, start and finish task 0, fail task 1
+(running) with task 2 as a consumer, close: the run does not panic, task 0 and 1 have one report each (finished
+/ failed), task 2 one (aborted), an id that is no task has none. -/
+example :
+    (Job.run {} [.openJob none, .submit (some 1) none (.array [⟨0, 3, 1⟩] none),
+             .started (1, 0) 0 [1] 0, .started (1, 1) 0 [1] 0, .finished (1, 0), .failed (1, 1) [(1, 2)],
+             .close 1]).toOption.map
+      (fun r => ([(1, 0), (1, 1), (1, 2), (1, 3)].map (Job.termCount · r.2),
+                 r.1.jobs.map fun j => j.tasks.map (·.2)))
+    = some ([1, 1, 1, 0], [[.finished, .failed, .aborted]]) := by decide
 
 end HqModel.C01
